@@ -295,3 +295,157 @@ Proof.
   rewrite (map_bytes_fix _ _ 7 _ dq' B7 (idem_pad _ _ _ Fdq)).
   apply (map_bytes_fix _ _ 8 _ cr' B8 (idem_pad _ _ _ Fcr)).
 Qed.
+
+Lemma rsa_priv_norm_wf c s m m' : wf_msg s m = true -> rsa_priv_norm c s m = Some m' -> wf_msg s m' = true.
+Proof.
+  unfold rsa_priv_norm. intros Hw.
+  destruct (get_field s m 2) as [[t v]|] eqn:G2; [|discriminate].
+  destruct t; try discriminate. destruct v as [| |pm|]; try discriminate.
+  set (pm0 := match pm with Some x => x | None => default_msg s0 end).
+  destruct (rsa_pub_norm c s0 pm0) as [pm'|] eqn:EP; [|discriminate].
+  destruct (get_bytes s0 pm' 3) as [n|] eqn:Gn; [|discriminate].
+  destruct (get_bytes s m 4) as [p|] eqn:Gp; [|discriminate].
+  destruct (get_bytes s m 5) as [q|] eqn:Gq; [|discriminate].
+  destruct (map_bytes s _ 3 _) as [m3|] eqn:E3; [|discriminate].
+  destruct (map_bytes s m3 6 _) as [m4|] eqn:E6; [|discriminate].
+  destruct (map_bytes s m4 7 _) as [m5|] eqn:E7; [|discriminate].
+  intros E8.
+  eapply wf_map_bytes; [|exact E8]. eapply wf_map_bytes; [|exact E7].
+  eapply wf_map_bytes; [|exact E6]. eapply wf_map_bytes; [|exact E3].
+  assert (W1 : wf_msg s (set_field s m 2 (VMsg (Some pm'))) = true).
+  { eapply wf_set; [exact Hw | exact G2 |]. cbn [wf_val]. eapply rsa_pub_norm_wf; [|exact EP].
+    pose proof (get_field_type _ _ _ _ _ G2 Hw) as Hv. cbn [wf_val] in Hv.
+    unfold pm0. destruct pm; [exact Hv | apply (proj2 wf_default_mut)]. }
+  apply get_bytes_some in Gp, Gq.
+  eapply wf_set; [| |reflexivity].
+  - eapply wf_set; [exact W1 | | reflexivity]. rewrite get_field_set_other by lia. exact Gp.
+  - rewrite !get_field_set_other by lia. exact Gq.
+Qed.
+
+(* the public part of a normalised private key *)
+Lemma ec_priv_norm_pub cs s m m' : ec_priv_norm cs s m = Some m' ->
+  exists ps pm pm', get_field s m 2 = Some (TMsg ps, VMsg pm) /\
+    ec_pub_norm cs ps (match pm with Some x => x | None => default_msg ps end) = Some pm' /\
+    get_field s m' 2 = Some (TMsg ps, VMsg (Some pm')).
+Proof.
+  unfold ec_priv_norm.
+  destruct (get_field s m 2) as [[t v]|] eqn:G2; [|discriminate].
+  destruct t; try discriminate. destruct v as [| |pm|]; try discriminate.
+  destruct (ec_pub_norm cs s0 _) as [pm'|] eqn:EP; [|discriminate].
+  intros E3. destruct (map_bytes_some _ _ _ _ _ E3) as (k & k' & _ & _ & ->).
+  exists s0, pm, pm'. repeat split; [exact EP|].
+  rewrite get_field_set_other by lia. rewrite get_set, N.eqb_refl, G2. reflexivity.
+Qed.
+
+Lemma rsa_priv_norm_pub c s m m' : rsa_priv_norm c s m = Some m' ->
+  exists ps pm pm', get_field s m 2 = Some (TMsg ps, VMsg pm) /\
+    rsa_pub_norm c ps (match pm with Some x => x | None => default_msg ps end) = Some pm' /\
+    get_field s m' 2 = Some (TMsg ps, VMsg (Some pm')).
+Proof.
+  unfold rsa_priv_norm.
+  destruct (get_field s m 2) as [[t v]|] eqn:G2; [|discriminate].
+  destruct t; try discriminate. destruct v as [| |pm|]; try discriminate.
+  destruct (rsa_pub_norm c s0 _) as [pm'|] eqn:EP; [|discriminate].
+  destruct (get_bytes s0 pm' 3) as [n|]; [|discriminate].
+  destruct (get_bytes s m 4) as [p|]; [|discriminate].
+  destruct (get_bytes s m 5) as [q|]; [|discriminate].
+  destruct (map_bytes s _ 3 _) as [m3|] eqn:E3; [|discriminate].
+  destruct (map_bytes s m3 6 _) as [m4|] eqn:E6; [|discriminate].
+  destruct (map_bytes s m4 7 _) as [m5|] eqn:E7; [|discriminate].
+  intros E8.
+  destruct (map_bytes_some _ _ _ _ _ E3) as (? & ? & _ & _ & ->).
+  destruct (map_bytes_some _ _ _ _ _ E6) as (? & ? & _ & _ & ->).
+  destruct (map_bytes_some _ _ _ _ _ E7) as (? & ? & _ & _ & ->).
+  destruct (map_bytes_some _ _ _ _ _ E8) as (? & ? & _ & _ & ->).
+  exists s0, pm, pm'. repeat split; [exact EP|].
+  rewrite !get_field_set_other by lia. rewrite get_set, N.eqb_refl, G2. reflexivity.
+Qed.
+
+(* fields other than 2..8 of a normalised private key are untouched *)
+Lemma ec_priv_norm_other cs s m m' n : ec_priv_norm cs s m = Some m' -> n <> 2 -> n <> 3 ->
+  get_field s m' n = get_field s m n.
+Proof.
+  unfold ec_priv_norm.
+  destruct (get_field s m 2) as [[t v]|] eqn:G2; [|discriminate].
+  destruct t; try discriminate. destruct v as [| |pm|]; try discriminate.
+  destruct (ec_pub_norm cs s0 _) as [pm'|] eqn:EP; [|discriminate].
+  intros E3 H2 H3. destruct (map_bytes_some _ _ _ _ _ E3) as (k & k' & _ & _ & ->).
+  rewrite !get_field_set_other by lia. reflexivity.
+Qed.
+
+(* coordinate size is read from fields the normalisation does not touch *)
+Lemma get_sub_eq s m m' n : get_field s m' n = get_field s m n -> get_sub s m' n = get_sub s m n.
+Proof. unfold get_sub. intros ->. reflexivity. Qed.
+Lemma get_int_eq s m m' n : get_field s m' n = get_field s m n -> get_int s m' n = get_int s m n.
+Proof. unfold get_int. intros ->. reflexivity. Qed.
+
+Lemma ecdsa_cs_stable cs s m m' : ec_pub_norm cs s m = Some m' -> ecdsa_cs s m' = ecdsa_cs s m.
+Proof. intros H. unfold ecdsa_cs. rewrite (get_sub_eq s m m' 2); [reflexivity|]. eapply ec_pub_norm_other; [exact H | lia | lia]. Qed.
+Lemma jwtecdsa_cs_stable cs s m m' : ec_pub_norm cs s m = Some m' -> jwtecdsa_cs s m' = jwtecdsa_cs s m.
+Proof. intros H. unfold jwtecdsa_cs. rewrite (get_int_eq s m m' 2); [reflexivity|]. eapply ec_pub_norm_other; [exact H | lia | lia]. Qed.
+Lemma ecies_cs_stable cs s m m' : ec_pub_norm cs s m = Some m' -> ecies_cs s m' = ecies_cs s m.
+Proof. intros H. unfold ecies_cs. rewrite (get_sub_eq s m m' 2); [reflexivity|]. eapply ec_pub_norm_other; [exact H | lia | lia]. Qed.
+
+Lemma on_pub_after s m ps pm' : get_field s m 2 = Some (TMsg ps, VMsg (Some pm')) -> on_pub s m = Some (ps, pm').
+Proof. unfold on_pub, get_sub. intros ->. reflexivity. Qed.
+Lemma on_pub_before s m ps pm : get_field s m 2 = Some (TMsg ps, VMsg pm) ->
+  on_pub s m = Some (ps, match pm with Some x => x | None => default_msg ps end).
+Proof. unfold on_pub, get_sub. intros ->. destruct pm; reflexivity. Qed.
+
+Theorem normalise_idem k s m m' : normalise k s m = Some m' -> normalise k s m' = Some m'.
+Proof.
+  destruct k; cbn [normalise].
+  - intros H. inversion H. reflexivity.
+  - destruct (ecdsa_cs s m) as [cs|] eqn:E; [|discriminate]. intros H.
+    rewrite (ecdsa_cs_stable _ _ _ _ H), E. eapply ec_pub_norm_idem. exact H.
+  - destruct (on_pub s m) as [[ps pm0]|] eqn:EO; [|discriminate].
+    destruct (ecdsa_cs ps pm0) as [cs|] eqn:E; [|discriminate]. intros H.
+    destruct (ec_priv_norm_pub _ _ _ _ H) as (ps' & pm & pm' & G2 & EP & G2').
+    rewrite (on_pub_before _ _ _ _ G2) in EO. inversion EO; subst ps' pm0.
+    rewrite (on_pub_after _ _ _ _ G2'). rewrite (ecdsa_cs_stable _ _ _ _ EP), E.
+    eapply ec_priv_norm_idem. exact H.
+  - destruct (jwtecdsa_cs s m) as [cs|] eqn:E; [|discriminate]. intros H.
+    rewrite (jwtecdsa_cs_stable _ _ _ _ H), E. eapply ec_pub_norm_idem. exact H.
+  - destruct (on_pub s m) as [[ps pm0]|] eqn:EO; [|discriminate].
+    destruct (jwtecdsa_cs ps pm0) as [cs|] eqn:E; [|discriminate]. intros H.
+    destruct (ec_priv_norm_pub _ _ _ _ H) as (ps' & pm & pm' & G2 & EP & G2').
+    rewrite (on_pub_before _ _ _ _ G2) in EO. inversion EO; subst ps' pm0.
+    rewrite (on_pub_after _ _ _ _ G2'). rewrite (jwtecdsa_cs_stable _ _ _ _ EP), E.
+    eapply ec_priv_norm_idem. exact H.
+  - destruct (ecies_cs s m) as [[cs|]|] eqn:E; [| |discriminate]; intros H.
+    + rewrite (ecies_cs_stable _ _ _ _ H), E. eapply ec_pub_norm_idem. exact H.
+    + inversion H; subst m'. rewrite E. reflexivity.
+  - destruct (on_pub s m) as [[ps pm0]|] eqn:EO; [|discriminate].
+    destruct (ecies_cs ps pm0) as [[cs|]|] eqn:E; [| |discriminate]; intros H.
+    + destruct (ec_priv_norm_pub _ _ _ _ H) as (ps' & pm & pm' & G2 & EP & G2').
+      rewrite (on_pub_before _ _ _ _ G2) in EO. inversion EO; subst ps' pm0.
+      rewrite (on_pub_after _ _ _ _ G2'). rewrite (ecies_cs_stable _ _ _ _ EP), E.
+      eapply ec_priv_norm_idem. exact H.
+    + inversion H; subst m'. rewrite EO, E. reflexivity.
+  - apply rsa_pub_norm_idem.
+  - apply rsa_priv_norm_idem.
+  - apply rsa_pub_norm_idem.
+  - apply rsa_priv_norm_idem.
+Qed.
+
+Theorem normalise_wf k s m m' : wf_msg s m = true -> normalise k s m = Some m' -> wf_msg s m' = true.
+Proof.
+  intros Hw. destruct k; cbn [normalise].
+  - intros H. inversion H; subst. exact Hw.
+  - destruct (ecdsa_cs s m); [|discriminate]. apply ec_pub_norm_wf. exact Hw.
+  - destruct (on_pub s m) as [[ps pm0]|]; [|discriminate]. destruct (ecdsa_cs ps pm0); [|discriminate].
+    apply ec_priv_norm_wf. exact Hw.
+  - destruct (jwtecdsa_cs s m); [|discriminate]. apply ec_pub_norm_wf. exact Hw.
+  - destruct (on_pub s m) as [[ps pm0]|]; [|discriminate]. destruct (jwtecdsa_cs ps pm0); [|discriminate].
+    apply ec_priv_norm_wf. exact Hw.
+  - destruct (ecies_cs s m) as [[cs|]|]; [| |discriminate].
+    + apply ec_pub_norm_wf. exact Hw.
+    + intros H. inversion H; subst. exact Hw.
+  - destruct (on_pub s m) as [[ps pm0]|]; [|discriminate]. destruct (ecies_cs ps pm0) as [[cs|]|]; [| |discriminate].
+    + apply ec_priv_norm_wf. exact Hw.
+    + intros H. inversion H; subst. exact Hw.
+  - apply rsa_pub_norm_wf. exact Hw.
+  - apply rsa_priv_norm_wf. exact Hw.
+  - apply rsa_pub_norm_wf. exact Hw.
+  - apply rsa_priv_norm_wf. exact Hw.
+Qed.
